@@ -8,6 +8,7 @@ CFG = dict(
         "Inst.gen_delete_no_precheck: delete does not start with a separate exists() check",
         "Inst.gen_durable_atomic: put_durable / delete_durable apply inside the WAL guard's scope (log_apply_atomic)",
         "Inst.gen_emb_ops_locked: the embedding-class arms of put/get/delete/exists hold the key's lock stripe",
+        "Inst.gen_scan_single_step: MetadataSlab::scan with a non-empty prefix copies keys and values under one acquisition of the shard lock",
         "Inst.gen_cache_get_key_checked: CacheRing::get compares the slot entry's key before returning its value",
     ],
     crate="nvh_c11", release=True,
